@@ -87,6 +87,14 @@ func genC09(t *rapid.T) C09Case {
 			bb := b
 			c.Steps = append(c.Steps, C09Step{Op: "block", B: &bb})
 		case "verify", "ingest":
+			switch rapid.IntRange(0, 11).Draw(t, "odd-call") {
+			case 0: // empty arguments: legal, must change nothing
+				c.Steps = append(c.Steps, C09Step{Op: op})
+				continue
+			case 1: // a proof with a wrong hash: refused or not, nothing false may be stored afterwards
+				c.Steps = append(c.Steps, C09Step{Op: "badverify", Set: genRequest(t, f)})
+				continue
+			}
 			set := genRequest(t, f)
 			for _, s := range set {
 				tracked[s] = true
@@ -239,6 +247,31 @@ func runC09(c C09Case) *Result {
 			if err := check(fmt.Sprintf("step %d after %s of slots %v", i, st.Op, st.Set)); err != nil {
 				return res.failf("%v", err)
 			}
+		case "badverify":
+			for _, s := range st.Set {
+				if s < 0 || s >= len(f.Dead) || f.Dead[s] {
+					return res.failf("case error: step %d names slot %d which is not live", i, s)
+				}
+			}
+			hs := f.HashesOf(st.Set)
+			proof := f.View().Proof(hs)
+			if len(proof.Proof) > 0 {
+				proof.Proof = cloneHashes(proof.Proof)
+				proof.Proof[len(proof.Proof)/2] = model.FreshHash(4242)
+			} else if len(hs) > 0 {
+				hs = cloneHashes(hs)
+				hs[0] = model.FreshHash(4243)
+			}
+			func() {
+				defer func() { recover() }() // a panic on a wrong proof is C04's business
+				if in.M.Verify(cloneHashes(hs), cloneProof(proof), true) == nil {
+					res.count("wrong-proof-accepted(C03)", 1)
+				}
+			}()
+			if err := check(fmt.Sprintf("step %d after a REFUSED Verify(remember) of slots %v with one wrong hash", i, st.Set)); err != nil {
+				return res.failf("%v", err)
+			}
+			special = special || sawDelBlock
 		case "prune":
 			var hs []Hash
 			for _, s := range st.Set {
